@@ -42,7 +42,7 @@ def run_in_subprocesses(jobs, nproc, timeout_ms):
     nchunks = min(len(jobs), max(nproc, min(len(jobs), nproc * 3)))
     chunks = [jobs[i::nchunks] for i in range(nchunks)]
     pending = list(enumerate(chunks)); running = {}; results = []
-    budget = lambda ch: 120 + len(ch) * max(60.0, timeout_ms / 1000.0 * 3)
+    budget = lambda ch: 300 + len(ch) * max(120.0, timeout_ms / 1000.0 * 6)      # a guard against hangs, generous enough for a loaded or smaller machine
     env = dict(os.environ, PYTHONPATH=VERIF)
     def finish(k, proc, outf, ch, killed):
         outf.seek(0); done = set()
